@@ -4,6 +4,8 @@ import DdnnfVerif.Model.Query
 import DdnnfVerif.Model.WFCheck
 import DdnnfVerif.Model.Features
 import DdnnfVerif.Model.Enum
+import DdnnfVerif.Model.Optimal
+import DdnnfVerif.Model.Cnf
 import DdnnfVerif.Proofs.PDLeaf
 namespace Ddnnf
 
@@ -19,6 +21,14 @@ def sortCfg (c : Config) : Config := sortBy (fun a b => a.natAbs < b.natAbs) c
 def fmtCfgs (cs : List Config) : String := ";".intercalate (cs.map (fun c => fmtInts (sortCfg c)))
 
 def parseIntsD (ws : List String) : List Int := ws.filterMap String.toInt?
+
+/-- split the argument words at "|" -/
+def splitBar (ws : List String) : List String × List String :=
+  (ws.takeWhile (· ≠ "|"), (ws.dropWhile (· ≠ "|")).drop 1)
+
+def valsOf (vs : List Int) : Nat → Int := fun v => if v ≥ 1 then vs.getD (v - 1) 0 else 0
+def fmtOC (full : Bool) (o : OC) : String :=
+  if full then s!"{o.value}:{fmtInts (sortCfg o.cfg)}" else toString o.value
 
 def circuitLine (nodes : List NType) (n : Nat) : String :=
   -- hypotheses of the theorems: WF (wfB_sound) and LitUnique (litUniqueB_sound); the truth-table part of
@@ -41,6 +51,21 @@ def answer (nodes : List NType) (n : Nat) (kind : String) (args : List String) :
       let ms := satMarks nodes (A.map (fun f => -f))
       String.ofList (ms.toList.map fun m => if m.1 || m.2 == 0 then '1' else '0')
   | "cardpd" => " ".intercalate ((cardPD nodes n).map toString)
+  | "best" | "bestv" =>
+      let (vs, As) := splitBar args
+      match bestConfig nodes (valsOf (parseIntsD vs)) (parseIntsD As) with
+      | some o => fmtOC (kind == "best") o
+      | none => "none"
+  | "topk" | "topkv" =>
+      match args with
+      | k :: rest =>
+          let (vs, As) := splitBar rest
+          ";".intercalate ((topK nodes (valsOf (parseIntsD vs)) (parseIntsD As) (k.toNat?.getD 0)).map (fmtOC (kind == "topk")))
+      | [] => "bad-args"
+  | "tocnf" =>
+      let (nv, cls) := toCnf nodes n
+      s!"{nv} {cls.length} | " ++ " ; ".intercalate (cls.map fmtInts)
+  | "enumok" => toString (enumOkB nodes)
   | "models" => fmtCfgs (models nodes (rootIx nodes))
   | _ => "unknown-query"
 
